@@ -106,3 +106,15 @@ Proof.
   replace (1 + 2 * f =? 0) with false by (symmetry; apply N.eqb_neq; lia).
   replace (1 + 2 * f - 1) with (f * 2) by lia. rewrite N.div_mul by lia. reflexivity.
 Qed.
+
+(* every (bRequest < 256, recipient, stage shape, value) of the sweep is in the swept list *)
+Lemma sw_in : forall EP r rc ld v, r < 256 -> In rc sw_recipients -> In ld sw_stages -> In v sw_values ->
+  In (sw_trace EP r rc (fst ld) (snd ld) v) (sw_all EP).
+Proof.
+  intros EP r rc ld v Hr Hrc Hld Hv. unfold sw_all.
+  apply in_flat_map. exists r. split.
+  - apply in_map_iff. exists (N.to_nat r). split; [apply N2Nat.id|]. apply in_seq. lia.
+  - apply in_flat_map. exists rc. split; [exact Hrc|].
+    apply in_flat_map. exists ld. split; [exact Hld|].
+    apply in_map_iff. exists v. split; [reflexivity | exact Hv].
+Qed.
